@@ -1059,6 +1059,20 @@ func (u *Unit) typeID(ty types.Type) int {
 	id := u.Prog.TypeIDs.ID(ty)
 	u.D.Fun("torigin", SInt, SInt)
 	u.D.Axiom(fmt.Sprintf("torigin:%d", id), fmt.Sprintf("(= (torigin %d) %d)", id, id))
+	// the reflect kind of a type the engine knows by id (so that "dynamic type is T" implies "Kind() is T's kind")
+	if k := kindOfType(ty); k > 0 && !u.BV {
+		if _, isTP := types.Unalias(ty).(*types.TypeParam); !isTP {
+			u.D.Fun("tkind", SInt, SInt)
+			u.D.Axiom(fmt.Sprintf("tkind:%d", id), fmt.Sprintf("(= (tkind %d) %d)", id, k))
+			if u.useReflect {
+				x := u.D.Bound("x", SVal)
+				u.D.Fun("rkind", SInt, SVal)
+				u.D.Fun("rtype", SInt, SVal)
+				u.D.Fun("untyped", SBool, SVal)
+				u.D.Axiom("tkind-rkind", Forall([]Term{x}, Imp(Not(App("untyped", SBool, x)), Same(App("tkind", SInt, App("rtype", SInt, x)), App("rkind", SInt, x))), []Term{App("rtype", SInt, x)}).S)
+			}
+		}
+	}
 	return id
 }
 
